@@ -9,6 +9,8 @@ use std::str::FromStr;
 
 mod helper {
     include!(env!("QTY_HELPER"));
+    // `quantity_entry`: the body of `quantity()` of qty-macros/src/lib.rs (see build.rs)
+    include!(concat!(env!("OUT_DIR"), "/entry.rs"));
 
     fn hex(s: &str) -> String {
         s.bytes().map(|b| format!("{:02x}", b)).collect()
@@ -299,10 +301,12 @@ mod helper {
 
     /// the sequence of `quantity()` in qty-macros/src/lib.rs
     pub fn run(args: TokenStream, item: TokenStream) -> String {
+        // the generated code comes from the macro's own entry point; the parsed definition printed
+        // below is recomputed here only to be displayed
+        let code = quantity_entry(args.clone(), item.clone());
         let mut item_ast = parse_item(item);
         let mut qty_def = analyze(&mut item_ast);
         qty_def.derived_as = parse_args(args);
-        let code = codegen(&qty_def, &item_ast.attrs);
         let mut s = format!("ok {}", qty_def.qty_ident);
         match &qty_def.ref_unit_ident {
             Some(i) => s.push_str(&format!(" ref={}", i)),
